@@ -135,7 +135,7 @@ class Collision(Exception):
 def header_symbols(batch, wd):
     """read the C symbol of each function import from the generated header (the scheme itself is not asserted)"""
     hdr = open(os.path.join(wd, 'm.h')).read()
-    syms = re.findall(r'^[A-Za-z0-9]+ ([A-Za-z0-9_]+)\(void\*', hdr, re.M)
+    syms = re.findall(r'^\s*[A-Za-z0-9]+ ([A-Za-z0-9_]+)\(void\*', hdr, re.M)   # \s*: the pretty format (-p) indents the declarations
     if len(syms) != len(batch.imports):
         raise RuntimeError('cannot map imports to header symbols: %r' % syms)
     for a in range(len(syms)):
@@ -198,16 +198,20 @@ def main(tier):
     jobs.append(('names', names_module(NAMES)))
     jobs.append(('names-collide', names_module([('a', '_b'), ('a_', 'b')])))
 
+    # every module again in the pretty-printed output format (-p): the call / call_indirect / export-wrapper writers have their own branches
+    jobs = [(label, b, ()) for label, b in jobs] + [(label, b, ('-p',)) for label, b in jobs if label != 'names-collide']
+
     def work(job):
-        label, b = job
+        label, b, wargs = job
         try:
-            return run_batch(b, w2c2=w2c2)
+            return run_batch(b, w2c2=w2c2, w2c2_args=wargs)
         except Collision as e:
             return {'done': False, 'stage': 'collision', 'pair': e.args[0], 'symbol': e.args[1]}
         except RuntimeError as e:
             return {'done': False, 'stage': 'header', 'stderr': str(e)}
     per = {}
-    for (label, b), res in zip(jobs, pmap(work, jobs)):
+    for (label, b, wargs), res in zip(jobs, pmap(work, jobs)):
+        label = label + ' -p' if wargs else label
         before = chk.cov['distinct_nontrivial']
         if res.get('stage') == 'collision':
             chk.violation('import-symbol-collision|' + res['pair'], {'kind': 'program', 'desc': 'two distinct function imports %s are given the same C symbol %s' % (res['pair'], res['symbol']),
@@ -215,7 +219,7 @@ def main(tier):
                           'distinct imports %s share the C symbol %s: both calls reach one host function' % (res['pair'], res['symbol']))
             chk.cov['exhaustive'] = chk.cov['exhaustive']
             continue
-        ok = report(chk, b, res, label + '|' + b.cases[0].desc if label.startswith('shape') or label == 'elem' else label)
+        ok = report(chk, b, res, label + '|' + b.cases[0].desc if label.startswith('shape') or label.startswith('elem') else label, extra={'w2c2_args': list(wargs)} if wargs else None)
         chk.cov['distinct_nontrivial'] = before
         d = per.setdefault(label, {'modules': 0, 'evaluations': 0, 'with_host_trace': 0})
         d['modules'] += 1
@@ -232,7 +236,7 @@ def main(tier):
                        'self/mutual recursion directly and through the table; import names stressing C-symbol mangling (symbol read from the header). '
                        'Every call is observable through the ordered host-call trace (callee identity, arguments in order, calling instance). '
                        'distinct_nontrivial = modules in which at least one call was executed and compared')
-    for label, b in jobs[:2] + jobs[-4:-2]:
+    for label, b, wargs in jobs[:2] + jobs[-4:-2]:
         chk.sample({'family': label, 'case': b.cases[0].desc})
     chk.assumptions += ['table indices stay inside initialised ranges with matching signatures (w2c2 does not check them by design)']
     return chk.finish()
